@@ -99,6 +99,7 @@ def main(tier: str, seed: int, replay: str | None = None) -> int:
     C.force_repo_on_path()
     rep = C.Report("C06", tier, seed)
     rep.proof_stage()
+    rep.proof_stage("C06_list")     # engine accepts iff fits, for any list of base-type alternatives
     rng = random.Random(seed)
     quick = tier == "quick"
     items = []
@@ -144,6 +145,16 @@ def main(tier: str, seed: int, replay: str | None = None) -> int:
             sig = (2, ("o", 3, [("v", 0), r]), [("elim", ("v", 0), alts)])
             progs.append(([("inst", sig), ("inst", (0, E.conc_to_sty(x), [])), ("apply", 0, 1, True)], []))
             ms.append(("pattern", x, alts, r))
+        # family 3: alternatives produced by with_parameters (built by the real
+        # function on the implementation side, expanded for the model)
+        n3 = 80 if quick else 800
+        for _ in range(n3):
+            prog = E.gen_wp_program(rng, h)
+            c = prog[0][1][2][0]
+            alts = E.expand_wp(h.arity, c[2], c[3], c[4])
+            x = to_conc(prog[1][1][1])
+            progs.append((prog, []))
+            ms.append(("pattern", x, alts, prog[0][1][1][2][1]))
         items.append((h, progs))
         metas += ms
         cases = C.coq_list(ms, lambda m: f"({C.ty_coq(m[1])}, {C.coq_list(m[2], E.sty_coq)})")
